@@ -52,6 +52,114 @@ def SState.setObj (ss : SState) (id : Nat) (o : Option SObj) : SState :=
 def SState.sync (ss : SState) (n : Nat) : SState :=
   if ss.objs.size < n then { ss with objs := ss.objs ++ Array.replicate (n - ss.objs.size) none } else ss
 
+
+/-- S: elementwise binary operation. Operands are logical arrays or Go scalars. -/
+def specBin (psBefore : PState) (ss : SState) (newId : Nat) (mres : String) (op via a b : String) (optToks : List String)
+    (fin : SState → Option String → SOut) : SOut :=
+  let isArith := arithOps.contains op
+  let tc := if isArith then numberTypes else if ordCmpOps.contains op then ordTypes else eqTypes
+  let unsafe_ := optToks.contains "unsafe"
+  let same := optToks.contains "same"
+  let reuseTok := (optToks.find? (·.startsWith "reuse=")).map (fun t => (t.drop 6).toString)
+  let incrTok := (optToks.find? (·.startsWith "incr=")).map (fun t => (t.drop 5).toString)
+  -- operands
+  let opnd (tok : String) : Option (Option (Nat × SObj) × Option String) :=   -- (tensor?, literal?)
+    if tok.startsWith "$" then (sObj psBefore ss tok).map (fun x => (some x, none))
+    else if tok.startsWith "#" then some (none, some (tok.drop 1).toString) else none
+  -- objects the call may write (unsafe: the tensor operands; reuse / incr: the destination)
+  let idOf (tok : String) : List Nat := match sObj psBefore ss tok with | some (i, _) => [i] | none => []
+  let dests : List Nat := (if unsafe_ then idOf a ++ idOf b else []) ++
+    (match reuseTok with | some t => idOf t | none => []) ++ (match incrTok with | some t => idOf t | none => [])
+  let undef (ss : SState) : SOut := fin (dests.foldl (fun ss i => ss.setObj i none) ss) none
+  match opnd a, opnd b with
+  | some (ta, la), some (tb, lb) =>
+    -- the tensor operand that fixes shape and dtype; scalar tensors (rank 0) are outside S's domain here
+    let tens := match ta, tb with
+      | some x, _ => some x
+      | none, some y => some y
+      | none, none => none
+    match tens with
+    | none => undef ss
+    | some (tid, t) =>
+      let dtOf (tok : String) : String := match psBefore.obj tok with | some (_, d) => d.dt | none => "?"
+      let tdt := if ta.isSome then dtOf a else dtOf b
+      let litDt (l : String) : String := match l.splitOn ":" with | [_, d] => d | _ => tdt
+      let litTerm (l : String) : Val := match l.splitOn ":" with | [x, d] => .lit s!"{x}:{d}" | _ => .lit s!"{l}:{tdt}"
+      -- rank-0 tensor operands, or a method call: leave to the correspondence only
+      let scalarTensor := (match ta with | some (_, x) => x.idx.shape.isEmpty | none => false) ||
+                          (match tb with | some (_, x) => x.idx.shape.isEmpty | none => false)
+      if scalarTensor then undef ss else
+      -- refusals
+      let dtA := match ta, la with | some _, _ => dtOf a | _, some l => litDt l | _, _ => "?"
+      let dtB := match tb, lb with | some _, _ => dtOf b | _, some l => litDt l | _, _ => "?"
+      -- a refusal leaves every operand as it was; the content of a reuse/incr destination is unspecified afterwards
+      let refuse (ss : SState) : SOut :=
+        let rd := (match reuseTok with | some t => idOf t | none => []) ++ (match incrTok with | some t => idOf t | none => [])
+        fin (rd.foldl (fun ss i => ss.setObj i none) ss) (some "r=err")
+      if !tc.contains tdt || dtA != dtB || (isArith && !(kernelTypes op).contains tdt) then refuse ss else
+      let shapesOk := match ta, tb with
+        | some (_, x), some (_, y) => some (x.idx.shape == y.idx.shape, totalSize x.idx.shape == totalSize y.idx.shape)
+        | _, _ => none
+      match shapesOk with
+      | some (false, false) => refuse ss
+      | some (false, true) => undef ss      -- same size, different shape: soft vector equality, not specified
+      | _ =>
+        let ea := match ta, la with
+          | some (_, x), _ => x.elems ss
+          | none, some l => some (List.replicate t.idx.elems.length (litTerm l))
+          | _, _ => none
+        let eb := match tb, lb with
+          | some (_, y), _ => y.elems ss
+          | none, some l => some (List.replicate t.idx.elems.length (litTerm l))
+          | _, _ => none
+        match ea, eb with
+        | some ea, some eb =>
+          let boolRes := !isArith && !same && !unsafe_
+          let fn := if isArith then op else if boolRes then op else op ++ ".same"
+          let vals := List.zipWith (fun x y => Val.app2 fn x y) ea eb
+          -- destination
+          match incrTok, reuseTok with
+          | some it, _ =>
+            match sObj psBefore ss it with
+            | some (iid, io) =>
+              if io.idx.elems.length != vals.length then fin ss (some "r=err") else
+              if io.idx.shape != t.idx.shape then undef ss else
+              match io.elems ss, ss.store[io.root]? with
+              | some old, some bcells =>
+                let nv := List.zipWith (fun r x => Val.app2 "add" r x) old vals
+                let b' := (io.idx.elems.zip nv).foldl (fun b (k, v) => b.setIfInBounds k v) bcells
+                if io.isView && mres != "ok" then fin ss (some "r=ok|err") else
+                fin { ss with store := ss.store.set! io.root b' } (some s!"r={if io.isView then "ok|err" else "ok"} ident={psBefore.firstVar iid}")
+              | _, _ => fin ss none
+            | none => fin ss none
+          | none, some rt =>
+            match sObj psBefore ss rt with
+            | some (rid, ro) =>
+              if ro.idx.elems.length != vals.length then fin ss (some "r=err") else
+              if ro.idx.shape != t.idx.shape then fin (ss.setObj rid none) none else
+              match ss.store[ro.root]? with
+              | some bcells =>
+                let b' := (ro.idx.elems.zip vals).foldl (fun b (k, v) => b.setIfInBounds k v) bcells
+                if ro.isView && mres != "ok" then fin ss (some "r=ok|err") else
+                fin { ss with store := ss.store.set! ro.root b' } (some s!"r={if ro.isView then "ok|err" else "ok"} ident={psBefore.firstVar rid}")
+              | none => fin ss none
+            | none => fin ss none
+          | none, none =>
+            if unsafe_ then
+              match ss.store[t.root]? with
+              | some bcells =>
+                let b' := (t.idx.elems.zip vals).foldl (fun b (k, v) => b.setIfInBounds k v) bcells
+                fin { ss with store := ss.store.set! t.root b' } (some s!"r=ok ident={psBefore.firstVar tid}")
+              | none => fin ss none
+            else
+              let root := ss.store.size
+              let ss := { ss with store := ss.store.push vals.toArray }
+              let o' : SObj := { root := root, idx := ⟨t.idx.shape, List.range vals.length⟩ }
+              let _ := via
+              fin ({ ss with objs := (ss.sync newId).objs.push (some o') }) (some "r=ok ident=new")
+        | _, _ => fin ss none
+  | _, _ => fin ss none
+
 /--
   One step of S. `psBefore`/`psAfter` are M's states (used only for variable → object identity and to
   learn whether the *model* changed an object, never for values). `mres` is M's outcome class.
@@ -59,7 +167,9 @@ def SState.sync (ss : SState) (n : Nat) : SState :=
 def stepS (psBefore psAfter : PState) (ss : SState) (stepIdx : Nat) (toks : List String) (mres : String) : SOut :=
   let ss := ss.sync psBefore.ds.size
   let newId := psBefore.ds.size   -- id a tensor-producing step gives its result in M
-  let fin (ss : SState) (line : Option String) : SOut := { s := ss.sync psAfter.ds.size, line := line }
+  let fin (ss : SState) (line : Option String) : SOut :=
+    let ss := ss.sync psAfter.ds.size
+    { s := { ss with objs := ss.objs.extract 0 psAfter.ds.size }, line := line }
   match toks with
   | ["new", _, shape, order] =>
     match parseIntList shape with
@@ -67,7 +177,7 @@ def stepS (psBefore psAfter : PState) (ss : SState) (stepIdx : Nat) (toks : List
     | some sh =>
       if sh.any (· < 0) then fin ss none else
       let n := (totalSize sh).toNat
-      let bid := psBefore.st.heap.size
+      let bid := psBefore.nnew
       let cells : Array Val := (Array.range n).map (fun i => Val.src bid i)
       let root := ss.store.size
       let ss := { ss with store := ss.store.push cells }
@@ -286,6 +396,7 @@ def stepS (psBefore psAfter : PState) (ss : SState) (stepIdx : Nat) (toks : List
       if !isPerm ax n then fin ss none else
       fin ss (some s!"r=ok shape={showInts (ax.map (fun i => (getI? o.idx.shape i).getD 1))}")
     | _, _ => fin ss none
+  | "bin" :: op :: via :: a :: b :: opts => specBin psBefore ss newId mres op via a b opts fin
   | ["iter", v, script] =>
     match sObj psBefore ss v with
     | some (_, o) =>
